@@ -25,6 +25,8 @@ var sourceReads = map[string]bool{
 	"io.ReadAtLeast":             true,
 	"(*bufio.Reader).ReadBytes":  true,
 	"(*bufio.Reader).ReadString": true,
+	"(*bufio.Reader).ReadSlice":  true,
+	"(*bufio.Reader).ReadLine":   true,
 	"(*bufio.Reader).Peek":       true,
 	"(*bufio.Reader).Read":       true,
 	"invoke (io.Reader).Read":    true,
